@@ -55,11 +55,12 @@ PROPS = {
                 assumptions=['by-number / by-coordinate entry points (coord_to_index + the ordinal methods) are pinned and checked by the direct oracle coords.py; the ordinal methods are proved']),
     'C07': dict(gen_targets=READER_TARGETS, pins=READER_PINS, harness='reads.py', trusted=[],
                 assumptions=['I/O traces of model and implementation are compared after coalescing adjacent ranges']),
-    'C03': dict(gen_targets=['Version', 'Header', 'Producer', 'Reader', 'Utils'], pins=['conversion_utils.make_header_numpy', 'conversion_utils.make_header_seismic_file'],
+    'C03': dict(gen_targets=['Version', 'Header', 'Producer', 'Reader', 'Utils', 'Cropping', 'Reblock'],
+                pins=['conversion_utils.make_header_numpy', 'conversion_utils.make_header_seismic_file'] + pins_of('C10') + pins_of('C12'),
                 harness=['version.py', 'container.py'],
                 trusted=['tools/genx_header.py (fail-closed extraction of the size/format fields of make_header and of the footer padding of both write_headers); the bit rate as a fraction rn/rd: exact rational floor agrees with binary64 on these magnitudes (checked by correspondence on every written file)'],
                 assumptions=['string constructor is a hand model of the pinned source text (int() restricted to digit strings)',
-                             'cropper and re-blocker outputs: conformance theorems are C10 (crop_header) and C12 (reblock_header); compositions of writers are exercised by the container harness (lengths 2 and 3) and follow from those theorems since each writer only requires a conformant well-formed input',
+                             'compositions of writers: Props/C03a.v proves that conformance of the header is established by the converters and preserved by the cropper and the re-blocker, hence by every finite composition (induction); the container harness additionally runs compositions of length 2 and 3 through a specification-only decoder',
                              'VDS/ZGY converters share make_header; their routes are not executed here (ZGY cannot run in this sandbox)']),
     'C20': dict(gen_targets=['Hash', 'Utils'],
                 pins=['conversion_utils.MinimalInlineReader.read_line', 'utils.Geometry3d.__init__', 'utils.Geometry2d.__init__'],
